@@ -287,6 +287,9 @@ theorem sim_step {k ρ M M'} (δ : Delta) (hρ : Inj ρ) (h : Sim k ρ M M') (he
     Sim k ρ (step k δ held M e).1 (step k δ (held.map ρ) M' (renEv ρ e)).1 := by
   cases e with
   | trigger ep m ev => exact sim_trigger δ hρ h held ep m ev he
+  | readd m =>
+    refine ⟨?_, h⟩
+    simp only [step, renEv, renObs, h.models, List.length_map]
   | regen =>
     refine ⟨rfl, ?_⟩
     simp only [step, renEv]
@@ -323,6 +326,7 @@ theorem step_models (k : Kind) (δ : Delta) (held : List Nat) (M : PM) (e : Ev) 
   cases e with
   | trigger ep m ev => exact (trigger_models ..).1
   | regen => simp only [step]; split <;> rfl
+  | readd m => rfl
 
 theorem sim_run {k ρ} (δ : Delta) (hρ : Inj ρ) (held : List Nat) :
     ∀ (h : List Ev) (M M' : PM), Sim k ρ M M' → (∀ e ∈ h, e.onModels M.models) →
@@ -537,6 +541,7 @@ theorem lockIds_step (k : Kind) (δ : Delta) (held : List Nat) (M : PM) (e : Ev)
       rw [this.2.1, this.2.2.1]
       exact lockIds_touch ..
   | regen => simp only [step]; split <;> rfl
+  | readd m => rfl
 
 theorem run_unheld (k : Kind) (δ : Delta) (held : List Nat) :
     ∀ (h : List Ev) (M : PM), (∀ l ∈ lockIds M, l ∉ held) → run k δ held M h = run k δ [] M h
@@ -546,6 +551,7 @@ theorem run_unheld (k : Kind) (δ : Delta) (held : List Nat) :
       cases e with
       | trigger ep m ev => exact trigger_unheld k δ held M ep m ev hM
       | regen => rfl
+      | readd m => rfl
     simp only [run, h1]
     have hM' : ∀ l ∈ lockIds (step k δ [] M e).1, l ∉ held := by rw [lockIds_step]; exact hM
     rw [run_unheld k δ held es _ hM']
